@@ -807,6 +807,9 @@ def _positive_examples(rep):
     from . import lazy_rule as _lz
     _lz.positive_examples()
     from . import memo_rule as _mrp
+    cps = {r_["fi"].name for r_ in _mrp.stale_cached_properties(pp)}
+    if cps != {"grid_after_fit"}:
+        raise AnalysisError(f"positive example: the cached_property pattern flagged {sorted(cps)}, expected ['grid_after_fit']")
     byp = {r_["fi"].name for r_ in _mrp.setter_bypasses(pp)}
     if byp != {"scaled_bypassing"}:
         raise AnalysisError(f"positive example: the setter-bypass pattern flagged {sorted(byp)}, expected ['scaled_bypassing']")
@@ -889,6 +892,9 @@ def run(project: Project, rep, tier: str):
     for r_ in _mr.setter_bypasses(project):
         rep.refuted("PU-CACHE", r_["fi"], r_["node"], r_["why"] + " — the result depends on what was asked of the source object before",
                     construct=f"{r_['fi'].qualname}: setter of {r_['prop']} bypassed")
+    for r_ in _mr.stale_cached_properties(project):
+        rep.refuted("PU-CACHE", r_["fi"], r_["node"], r_["why"] + " — the result depends on the calls made before",
+                    construct=f"{r_['fi'].qualname}: cached_property over {r_['attr']}")
     _, rng_sites = check_pu_rng(project, oa, rep)
     rep.floor("PU-RNG", 1)
     check_pu_share(project, oa, rep, eps)
